@@ -77,6 +77,7 @@ type TermCtx struct {
 	ufs    map[string]*UFDecl // uninterpreted functions
 	ufList []string
 	fresh  map[string]int
+	Axioms []*Term // facts about the initial heap, assumed in every obligation
 }
 
 type UFDecl struct {
@@ -633,6 +634,34 @@ func (c *TermCtx) intBin(op string, a, b *Term) *Term {
 	if (op == "+" || op == "-") && b.IsConst() && b.Val.Sign() == 0 {
 		return a
 	}
+	if op == "-" {
+		if a == b {
+			return c.Inti(0)
+		}
+		if a.Op == "+" && a.Args[0] == b {
+			return a.Args[1]
+		}
+		if a.Op == "+" && a.Args[1] == b {
+			return a.Args[0]
+		}
+		// (x + c1) - (x + c2), (x + c1) - x handled above; (a + k) - (a + m)
+		if a.Op == "+" && b.Op == "+" && a.Args[0] == b.Args[0] {
+			return c.intBin("-", a.Args[1], b.Args[1])
+		}
+	}
+	if op == "+" {
+		// (x + c1) + c2 -> x + (c1+c2)
+		if b.IsConst() && a.Op == "+" && a.Args[1].IsConst() {
+			return c.intBin("+", a.Args[0], c.Int(new(big.Int).Add(a.Args[1].Val, b.Val)))
+		}
+		if a.IsConst() && !b.IsConst() {
+			a, b = b, a
+		}
+		// (x - y) + y -> x
+		if a.Op == "-" && a.Args[1] == b {
+			return a.Args[0]
+		}
+	}
 	if op == "+" && a.IsConst() && a.Val.Sign() == 0 {
 		return b
 	}
@@ -657,6 +686,33 @@ func (c *TermCtx) ILe(a, b *Term) *Term {
 		return c.True()
 	}
 	return c.mk(&Term{Op: "<=", Args: []*Term{a, b}, Sort: BoolSort})
+}
+
+// BV2Nat / Int2BV: bridges used only in hybrid mode at conversions between int and sized integers.
+func (c *TermCtx) BV2Nat(a *Term) *Term {
+	if a.IsConst() {
+		return c.Int(a.Val)
+	}
+	if a.Op == "int2bv" {
+		// bv2nat(int2bv(x)) = x mod 2^w; kept symbolic
+	}
+	if a.Op == "zero_extend" {
+		return c.BV2Nat(a.Args[0])
+	}
+	return c.mk(&Term{Op: "bv2nat", Args: []*Term{a}, Sort: IntSort})
+}
+
+func (c *TermCtx) Int2BV(a *Term, w int) *Term {
+	if a.IsConst() {
+		return c.BV(a.Val, w)
+	}
+	if a.Op == "bv2nat" && a.Args[0].Sort.W == w {
+		return a.Args[0]
+	}
+	if a.Op == "bv2nat" && a.Args[0].Sort.W < w {
+		return c.ZeroExt(a.Args[0], w)
+	}
+	return c.mk(&Term{Op: "int2bv", Args: []*Term{a}, P1: w, Sort: BVSort(w)})
 }
 
 // ---- arrays
@@ -849,6 +905,10 @@ func (c *TermCtx) rebuild(t *Term, a []*Term) *Term {
 		return c.ILt(a[0], a[1])
 	case "<=":
 		return c.ILe(a[0], a[1])
+	case "bv2nat":
+		return c.BV2Nat(a[0])
+	case "int2bv":
+		return c.Int2BV(a[0], t.P1)
 	case "select":
 		return c.Select(a[0], a[1])
 	case "store":
@@ -976,6 +1036,8 @@ func (c *TermCtx) Script(assumptions []*Term, goal *Term, logicHint string, want
 			return fmt.Sprintf("((_ extract %d %d) %s)", t.P1, t.P2, as[0])
 		case "zero_extend", "sign_extend":
 			return fmt.Sprintf("((_ %s %d) %s)", t.Op, t.P1, as[0])
+		case "int2bv":
+			return fmt.Sprintf("((_ int2bv %d) %s)", t.P1, as[0])
 		case "constarr":
 			return fmt.Sprintf("((as const %s) %s)", t.Sort, as[0])
 		case "forall", "exists":
@@ -983,7 +1045,21 @@ func (c *TermCtx) Script(assumptions []*Term, goal *Term, logicHint string, want
 			for _, b := range t.BVars {
 				bs = append(bs, fmt.Sprintf("(%s %s)", smtName(b.Name), b.Sort))
 			}
-			return fmt.Sprintf("(%s (%s) %s)", t.Op, strings.Join(bs, " "), as[0])
+			body := as[0]
+			if t.Op == "forall" {
+				if pats := c.choosePatterns(t); len(pats) > 0 {
+					var ps []string
+					for _, mp := range pats {
+						var one []string
+						for _, p := range mp {
+							one = append(one, pr(p))
+						}
+						ps = append(ps, ":pattern ("+strings.Join(one, " ")+")")
+					}
+					body = fmt.Sprintf("(! %s %s)", body, strings.Join(ps, " "))
+				}
+			}
+			return fmt.Sprintf("(%s (%s) %s)", t.Op, strings.Join(bs, " "), body)
 		case "app":
 			return fmt.Sprintf("(%s %s)", smtName(t.Name), strings.Join(as, " "))
 		}
@@ -1073,4 +1149,161 @@ func termFeatures(ts []*Term) (quant, uf, arrays, ints, bvs bool) {
 		walk(t)
 	}
 	return
+}
+
+// choosePatterns picks E-matching triggers for a universal quantifier: minimal select / UF
+// sub-terms over the bound variables, dropping groups that would cause matching loops
+// (the same head applied to several different index terms, e.g. f(i) and f(i+1)).
+// Returns alternative (multi-)patterns; nil lets the solver choose.
+func (c *TermCtx) choosePatterns(q *Term) [][]*Term {
+	own := map[int]bool{}
+	for _, b := range q.BVars {
+		own[b.id] = true
+	}
+	usesOwn := func(t *Term) map[int]bool {
+		m := map[int]bool{}
+		for _, f := range t.free {
+			if own[f] {
+				m[f] = true
+			}
+		}
+		return m
+	}
+	var cands []*Term
+	seen := map[int]bool{}
+	var walk func(t *Term)
+	walk = func(t *Term) {
+		if seen[t.id] || !t.open {
+			return
+		}
+		seen[t.id] = true
+		if t.Op == "forall" || t.Op == "exists" {
+			return // do not look inside nested quantifiers
+		}
+		for _, a := range t.Args {
+			walk(a)
+		}
+		if (t.Op == "select" || t.Op == "app") && len(usesOwn(t)) > 0 {
+			// all free bound variables must be ours
+			ok := true
+			for _, f := range t.free {
+				if !own[f] {
+					ok = false
+				}
+			}
+			if ok {
+				cands = append(cands, t)
+			}
+		}
+	}
+	walk(q.Args[0])
+	if len(cands) == 0 {
+		return nil
+	}
+	// loop filter: group by head and the arguments that do not mention bound variables
+	var groupKey func(t *Term) string
+	groupKey = func(t *Term) string {
+		var sb strings.Builder
+		sb.WriteString(t.Op + ":" + t.Name + "(")
+		for i, a := range t.Args {
+			switch {
+			case !a.open:
+				fmt.Fprintf(&sb, "%d:#%d,", i, a.id)
+			case a.Op == "select" || a.Op == "app":
+				fmt.Fprintf(&sb, "%d:%s,", i, groupKey(a))
+			default:
+				fmt.Fprintf(&sb, "%d:*,", i)
+			}
+		}
+		sb.WriteString(")")
+		return sb.String()
+	}
+	groups := map[string][]*Term{}
+	for _, t := range cands {
+		k := groupKey(t)
+		groups[k] = append(groups[k], t)
+	}
+	var filtered []*Term
+	for _, t := range cands {
+		if len(groups[groupKey(t)]) == 1 {
+			filtered = append(filtered, t)
+		}
+	}
+	if len(filtered) == 0 {
+		return nil
+	}
+	// minimal candidates: no other candidate as a proper sub-term
+	isSub := func(small, big *Term) bool {
+		found := false
+		vis := map[int]bool{}
+		var rec func(t *Term)
+		rec = func(t *Term) {
+			if found || vis[t.id] {
+				return
+			}
+			vis[t.id] = true
+			for _, a := range t.Args {
+				if a == small {
+					found = true
+					return
+				}
+				rec(a)
+			}
+		}
+		rec(big)
+		return found
+	}
+	var minimal []*Term
+	for _, t := range filtered {
+		min := true
+		for _, o := range filtered {
+			if o != t && isSub(o, t) && len(usesOwn(o)) >= len(usesOwn(t)) {
+				min = false
+				break
+			}
+		}
+		if min {
+			minimal = append(minimal, t)
+		}
+	}
+	var out [][]*Term
+	var partial []*Term
+	for _, t := range minimal {
+		if len(usesOwn(t)) == len(own) {
+			out = append(out, []*Term{t})
+		} else {
+			partial = append(partial, t)
+		}
+	}
+	if len(out) > 6 {
+		out = out[:6]
+	}
+	if len(out) == 0 && len(partial) > 0 {
+		// one greedy multi-pattern covering all variables
+		covered := map[int]bool{}
+		var mp []*Term
+		for len(covered) < len(own) {
+			best, gain := (*Term)(nil), 0
+			for _, t := range partial {
+				g := 0
+				for f := range usesOwn(t) {
+					if !covered[f] {
+						g++
+					}
+				}
+				if g > gain {
+					best, gain = t, g
+				}
+			}
+			if best == nil {
+				return nil
+			}
+			mp = append(mp, best)
+			for f := range usesOwn(best) {
+				covered[f] = true
+			}
+		}
+		out = append(out, mp)
+	}
+	return out
 }
